@@ -1,5 +1,5 @@
 //@host src/devices.rs
-//@config dev
+//@config dev,rel_default
 // C16, first sentence, the parts not covered elsewhere:
 //   (1) n-ary sum / product streams, all arities 1..8, all presence patterns: c02_math.rs (c02_sum_stream_*,
 //       c02_product_stream_*), cross-listed to C16 there (result == fold of the present inputs for every content of
